@@ -281,6 +281,11 @@ class RaggedArray:
         metadata = dict(self.metadata)
         if dtype is None:
             dtype = self.dtype
+        if len(self) == 0:  # asraggedarray needs at least one subarray
+            return create_raggedarray(path=path, atom=self.atom, dtype=dtype,
+                                      metadata=metadata,
+                                      accessmode=accessmode,
+                                      overwrite=overwrite)
         return asraggedarray(path=path, arrayiterable=arrayiterable,
                              dtype=dtype, metadata=metadata,
                              accessmode=accessmode, overwrite=overwrite)
